@@ -61,7 +61,7 @@ R_DEFAULT == 0  R_PIPE == 1  R_PARENT == 2  R_DISCARD == 3  R_STDOUT == 4
 Min(a, b) == IF a < b THEN a ELSE b
 HasBit(m, b) == (m \div b) % 2 = 1
 
-NoChild == [alive |-> "none", code |-> 0, term |-> 2, termAt |-> INF, fd |-> <<"x", "x", "x">>, self |-> FALSE, fk |-> FALSE]
+NoChild == [alive |-> "none", code |-> 0, term |-> 2, termAt |-> INF, fd |-> <<"x", "x", "x">>, self |-> FALSE, fk |-> FALSE, xo |-> FALSE]
 NoOpt == [dl |-> INF, stop |-> <<<<NOOP, 0>>, <<NOOP, 0>>, <<NOOP, 0>>>>, nb |-> FALSE]
 NoPend == [i |-> FALSE, o |-> FALSE, e |-> FALSE, x |-> FALSE]
 NoBuf == [i |-> 0, o |-> <<>>, e |-> <<>>]
@@ -90,7 +90,9 @@ Commit(s) ==
   /\ ch' = s.ch /\ buf' = s.buf /\ cnt' = s.cnt
 
 (* ---- children ---- *)
-Zombie(c, code) == [c EXCEPT !.alive = "zombie", !.code = code, !.fd = <<"x", "x", "x">>, !.termAt = INF]
+Zombie(c, code) == [c EXCEPT !.alive = "zombie", !.code = code, !.fd = <<"x", "x", "x">>, !.termAt = INF, !.xo = FALSE]
+\* what the library can observe of a child's end: its exit handle hung up (the child ended, or closed it and lives on)
+Hup(c) == c.alive # "run" \/ ~c.xo
 
 \* the child of handle h receives signal sig (it has not been reaped)
 Deliver(s, h, sig) ==
@@ -165,22 +167,30 @@ RunStop(s) ==
                 IN RunStop([s1 EXCEPT !.fr.pc = "look"])
     [] s.fr.pc = "look" ->
          IF s.ch[h].alive = "zombie" THEN Finish(Reap(s, h))
+         ELSE IF Hup(s.ch[h]) THEN [s EXCEPT !.fr.pc = "blocked2", !.fr.until = INF]
          ELSE LET e == EffTo(s, h, s.fr.acts[i][2]) IN
            IF e = 0 THEN RunStop([s EXCEPT !.fr.r = ETIMEDOUT, !.fr.i = i + 1, !.fr.pc = "act"])
            ELSE Block(s, AbsUntil(e))
     [] s.fr.pc = "woke" ->
          IF s.ch[h].alive = "zombie" THEN Finish(Reap(s, h))
+         ELSE IF Hup(s.ch[h]) THEN [s EXCEPT !.fr.pc = "blocked2", !.fr.until = INF]
          ELSE RunStop([s EXCEPT !.fr.r = ETIMEDOUT, !.fr.i = i + 1, !.fr.pc = "act"])
 
 (* ---- wait ---- *)
+\* a child that closed its exit handle but lives on cannot be told from one that ended: the wait then lasts until it really
+\* ends (never a status for a running child, C01); pc "blocked2" = waiting for the real end, whatever the timeout was
+Block2(s) == [s EXCEPT !.fr.pc = "blocked2", !.fr.until = INF]
 RunWait(s) ==
   LET h == s.fr.h IN
   CASE s.fr.pc = "look" ->
          IF s.ch[h].alive = "zombie" THEN Done(Reap(s, h))
+         ELSE IF Hup(s.ch[h]) THEN Block2(s)
          ELSE LET e == EffTo(s, h, s.fr.a[1]) IN
            IF e = 0 THEN Done([s EXCEPT !.fr.r = ETIMEDOUT]) ELSE Block(s, AbsUntil(e))
     [] s.fr.pc = "woke" ->
-         IF s.ch[h].alive = "zombie" THEN Done(Reap(s, h)) ELSE Done([s EXCEPT !.fr.r = ETIMEDOUT])
+         IF s.ch[h].alive = "zombie" THEN Done(Reap(s, h))
+         ELSE IF Hup(s.ch[h]) THEN Block2(s)
+         ELSE Done([s EXCEPT !.fr.r = ETIMEDOUT])
 
 (* ---- streams ---- *)
 StreamBuf(s, h, st) == IF st = S_OUT THEN s.buf[h].o ELSE s.buf[h].e
@@ -256,7 +266,7 @@ EventsOf(s, src) ==
      ELSE (IF HasBit(m, EV_IN) /\ s.pend[h].i /\ (s.buf[h].i < PipeCap \/ InReaders(s, h) = {}) THEN EV_IN ELSE 0)
         + (IF HasBit(m, EV_OUT) /\ s.pend[h].o /\ (s.buf[h].o # <<>> \/ OutWriters(s, h) = {}) THEN EV_OUT ELSE 0)
         + (IF HasBit(m, EV_ERR) /\ s.pend[h].e /\ (s.buf[h].e # <<>> \/ ErrWriters(s, h) = {}) THEN EV_ERR ELSE 0)
-        + (IF HasBit(m, EV_EXIT) /\ s.pend[h].x /\ s.ch[h].alive # "run" THEN EV_EXIT ELSE 0)
+        + (IF HasBit(m, EV_EXIT) /\ s.pend[h].x /\ Hup(s.ch[h]) THEN EV_EXIT ELSE 0)
 
 Pollable(s, src) ==
   LET h == src[1]
@@ -373,11 +383,12 @@ Run(s) ==
     [] s.fr.fn = "poll" -> RunPoll(s)
 
 (* condition under which a blocked call must resume *)
-Wake ==
+Wake2 == fr.pc = "blocked2" /\ ch[fr.h].alive # "run"
+Wake1 ==
   /\ fr.pc = "blocked"
   /\ \/ fr.until # INF /\ now >= fr.until
-     \/ fr.fn \in {"stop", "destroy", "wait"} /\ ch[fr.h].alive # "run"
-     \/ fr.fn = "run" /\ fr.then # "drain" /\ ch[fr.h].alive # "run"
+     \/ fr.fn \in {"stop", "destroy", "wait"} /\ Hup(ch[fr.h])
+     \/ fr.fn = "run" /\ fr.then # "drain" /\ Hup(ch[fr.h])
      \/ fr.fn \in {"drain", "run"} /\ fr.then \in {"ret", "drain"} /\
           LET b == Bundle IN
           \/ pend[fr.h].o /\ (buf[fr.h].o # <<>> \/ OutWriters(b, fr.h) = {})
@@ -385,6 +396,7 @@ Wake ==
      \/ fr.fn = "read" /\ (StreamBuf(Bundle, fr.h, fr.a[1]) # <<>> \/ StreamWriters(Bundle, fr.h, fr.a[1]) = {})
      \/ fr.fn = "write" /\ (buf[fr.h].i < PipeCap \/ InReaders(Bundle, fr.h) = {})
      \/ fr.fn = "poll" /\ \E k \in 1..Len(fr.a[1]) : EventsOf(Bundle, fr.a[1][k]) # 0
+Wake == Wake1 \/ Wake2
 
 (* ---- predicted observation of a completed call ---- *)
 NFd(s) == 3 + Cardinality({<<h, e>> \in Handles \X {"i", "o", "e", "x"} :
@@ -489,7 +501,7 @@ StartError(o) ==
 StartEffect(s, h, o) ==
   LET er == EffRedir(o)
       hasIn == o.input >= 0
-      c == [alive |-> "run", code |-> 0, term |-> o.term, termAt |-> INF, self |-> o.self, fk |-> IsFork(o),
+      c == [alive |-> "run", code |-> 0, term |-> o.term, termAt |-> INF, self |-> o.self, fk |-> IsFork(o), xo |-> TRUE,
             fd |-> << IF er.i = R_PIPE THEN "pi" ELSE "ot",
                       IF er.o = R_PIPE THEN "po" ELSE "ot",
                       IF er.e = R_PIPE THEN "pe" ELSE IF er.e = R_STDOUT /\ er.o = R_PIPE THEN "po" ELSE "ot" >>]
@@ -588,7 +600,7 @@ Resume ==
   /\ UNCHANGED ncalls
 
 (* ======================= environment ======================= *)
-EnvOK == fr.fn = "none" \/ (fr.pc = "blocked" /\ ~Wake)
+EnvOK == fr.fn = "none" \/ (fr.pc \in {"blocked", "blocked2"} /\ ~Wake)
 EnvRec(k, h, args) == [e |-> "env", k |-> k, h |-> h] @@ args
 DeathDue == \E h \in Handles : ch[h].alive = "run" /\ ch[h].termAt # INF /\ ch[h].termAt <= now
 
@@ -641,6 +653,13 @@ ChildClose(h, f) ==   \* f in 0..2 (descriptor number)
   /\ EnvOK /\ ch[h].alive = "run" /\ ch[h].fd[f + 1] \in {"pi", "po", "pe"}
   /\ ch' = [ch EXCEPT ![h].fd[f + 1] = "x"]
   /\ hist' = Append(hist, EnvRec("cclose", h, [fd |-> f]))
+  /\ UNCHANGED <<life, stv, opt, pend, buf, cnt, now, fr, ncalls>>
+
+\* the child closes its copy of the exit handle (and everything else above 2) and keeps running
+ChildCloseX(h) ==
+  /\ EnvOK /\ ch[h].alive = "run" /\ ch[h].xo
+  /\ ch' = [ch EXCEPT ![h].xo = FALSE]
+  /\ hist' = Append(hist, EnvRec("cclosex", h, [x |-> 1]))
   /\ UNCHANGED <<life, stv, opt, pend, buf, cnt, now, fr, ncalls>>
 
 ChildRead(h, n) ==
